@@ -413,6 +413,160 @@ example : ¬ SideOK ⟨.nrst, .sat⟩ (.cvt 6 1 (.lit ⟨5, -2, 31⟩)) ∧
     evalModel ⟨.nrst, .sat⟩ (.cvt 6 1 (.lit ⟨5, -2, 31⟩)) = .ok ⟨6, 1, 3⟩ ∧
     evalIdeal ⟨.nrst, .sat⟩ (.cvt 6 1 (.lit ⟨5, -2, 31⟩)) = .val 1 4 := by decide
 
+/-! ## 6. shifts
+
+Run-time counts (`x << n`, `x >> n`; `n` a built-in integer or a static_integer, by value; `CnlModel/Static.lean`
+`shiftRT`), `cnl::constant<k>` counts on a bare static_integer (`shiftConstInt`: the digits widen / narrow) and on a
+static_number (`shiftConstNum`: the exponent moves), compound assignment (`shiftAssign` = the shift, then the
+conversion of section 4).  Every count `n ≥ 0` is covered — also counts at and beyond the digit count and the
+storage width (the model's outcome is then the tag's reaction for `x ≠ 0`, `0` for `x = 0`, and `0 / −1` for `>>`);
+a negative run-time count is undefined as for built-in operands and outside the quantifier; `constant<k>` with
+`k < 0` on a static_integer (compiles, undefined) and `x >> constant<k>` with `k ≥` digits (a type with no or a
+negative number of digits) likewise.  `x >> n` is the floor quotient whatever the rounding tag: shifts pass through the
+rounding layer (the correspondence table confirms it for all four tags).
+The shift nodes are part of the histories of section 5 (`SExpr.shl / shr / shlN / shlI / shrI`). -/
+
+/-- **`x << n`, run-time count `n ≥ 0`** (every count), every digit count, exponent and tag, in-range `x`: the exact
+product `x · 2^n` in the operand's digits and exponent when it fits `±(2^D − 1)`; otherwise the tag's reaction with
+the right polarity — the clamped limit (saturated), an exception, a trap, `unreachable`.  Never another value,
+never undefined behaviour. -/
+theorem shl_exact_or_signal (c : Cfg) (x : SNum) (n : Int) (hn : 0 ≤ n) (hx : x.InRange)
+    (hwf : ∀ m, shiftRT c .shl x n ≠ .ill m) :
+    (-(2^x.digits - 1 : Int) ≤ x.value * 2^n.toNat ∧ x.value * 2^n.toNat ≤ 2^x.digits - 1 →
+      shiftRT c .shl x n = .ok ⟨x.digits, x.exp, x.value * 2^n.toNat⟩) ∧
+    (x.value * 2^n.toNat > 2^x.digits - 1 →
+      (c.tag = .sat → shiftRT c .shl x n = .ok ⟨x.digits, x.exp, 2^x.digits - 1⟩) ∧
+      (c.tag = .thr → shiftRT c .shl x n = .throws true) ∧
+      (c.tag = .trp → shiftRT c .shl x n = .trap true) ∧
+      (c.tag = .und → shiftRT c .shl x n = .unreachable "positive overflow")) ∧
+    (x.value * 2^n.toNat < -(2^x.digits - 1 : Int) →
+      (c.tag = .sat → shiftRT c .shl x n = .ok ⟨x.digits, x.exp, -(2^x.digits - 1 : Int)⟩) ∧
+      (c.tag = .thr → shiftRT c .shl x n = .throws false) ∧
+      (c.tag = .trp → shiftRT c .shl x n = .trap false) ∧
+      (c.tag = .und → shiftRT c .shl x n = .unreachable "negative overflow")) := by
+  obtain ⟨j, rfl⟩ := Int.eq_ofNat_of_zero_le hn
+  rw [Int.toNat_natCast]
+  rcases shiftRT_shl_core c x j hx with h | ⟨m, h⟩
+  · rw [h]
+    have hp := two_pow_pos x.digits
+    refine ⟨fun hf => by rw [narrowDigits_fits c x.digits hf]; rfl, fun hgt => ?_, fun hlt => ?_⟩
+    · simp only [narrowDigits, hgt, ite_true]
+      refine ⟨?_, ?_, ?_, ?_⟩ <;> intro ht <;> rw [ht] <;> rfl
+    · have h1 : ¬ x.value * 2^j > 2^x.digits - 1 := by omega
+      simp only [narrowDigits, h1, hlt, ite_true, ite_false]
+      refine ⟨?_, ?_, ?_, ?_⟩ <;> intro ht <;> rw [ht] <;> rfl
+  · exact absurd h (hwf m)
+
+/-- the same as one relation with the ideal result, and a returned value is in range of its digits -/
+theorem shl_agrees (c : Cfg) (x : SNum) (n : Nat) (hx : x.InRange) (hwf : ∀ m, shiftRT c .shl x (n : Int) ≠ .ill m) :
+    Agrees c.tag (shiftRT c .shl x (n : Int)) (idealNarrow c.tag x.digits x.exp (x.value * 2^n)) ∧
+      ∀ z, shiftRT c .shl x (n : Int) = .ok z → z.InRange :=
+  Static.shl_agrees c x n hx hwf
+
+/-- **`x >> n`, run-time count `n ≥ 0`** (every count): `⌊x / 2^n⌋` in the operand's digits and exponent, in
+range; no signal, no undefined behaviour -/
+theorem shr_floor (c : Cfg) (x : SNum) (n : Int) (hn : 0 ≤ n) (hx : x.InRange)
+    (hwf : ∀ m, shiftRT c .shr x n ≠ .ill m) :
+    shiftRT c .shr x n = .ok ⟨x.digits, x.exp, x.value / 2^n.toNat⟩ ∧
+      (⟨x.digits, x.exp, x.value / 2^n.toNat⟩ : SNum).InRange := by
+  obtain ⟨j, rfl⟩ := Int.eq_ofNat_of_zero_le hn
+  rw [Int.toNat_natCast]
+  rcases shiftRT_shr_core c x j hx with h | ⟨m, h⟩
+  · exact ⟨h, shr_inRange hx j⟩
+  · exact absurd h (hwf m)
+
+/-- **`x << constant<k>` on a static_integer**: exact, in `digits + k` digits, in range; neither overflow test
+fires, nothing is undefined -/
+theorem shl_constant_exact (c : Cfg) (x : SNum) (k : Nat) (hx : x.InRange)
+    (hwf : ∀ m, shiftConstInt c .shl x k ≠ .ill m) :
+    shiftConstInt c .shl x k = .ok ⟨x.digits + k, x.exp, x.value * 2^k⟩ ∧
+      (⟨x.digits + k, x.exp, x.value * 2^k⟩ : SNum).InRange := by
+  rcases shiftConstInt_shl_core c x k hx with h | ⟨m, h⟩
+  · exact ⟨h, scaleUp_inRange (x := ⟨x.digits, x.exp + k, x.value⟩) k hx⟩
+  · exact absurd h (hwf m)
+
+/-- **`x >> constant<k>` on a static_integer**, `k <` digits: `⌊x / 2^k⌋` in `digits − k` digits; in range of
+those digits unless the input is in the open class `ShrBelowRange` (`⌊x / 2^k⌋ = −2^(digits − k)`) -/
+theorem shr_constant_floor (c : Cfg) (x : SNum) (k : Nat) (hx : x.InRange) (hk : k < x.digits)
+    (hwf : ∀ m, shiftConstInt c .shr x k ≠ .ill m) :
+    shiftConstInt c .shr x k = .ok ⟨x.digits - k, x.exp, x.value / 2^k⟩ ∧
+      (¬ ShrBelowRange k x → (⟨x.digits - k, x.exp, x.value / 2^k⟩ : SNum).InRange) := by
+  rcases shiftConstInt_shr_core c x k hx hk with h | ⟨m, h⟩
+  · exact ⟨h, fun hc => shrConst_inRange hx hk hc⟩
+  · exact absurd h (hwf m)
+
+/-- open finding `C11.shr_constant_below_declared_range` (the elastic layer's `C05.shr_negative_below_declared_range`
+seen through a static_integer): the hypothesis is needed.  `static_integer<10>{−1023} >> constant<3>` is the
+7-digit number `−128`, below the declared `±127`, with no signal; two such values multiplied overflow the storage
+(`static_integer<16>{−65536} * static_integer<15>{−32768}` executes a signed `int` overflow). -/
+theorem shr_constant_below_declared_range_refuted :
+    ¬ (∀ (c : Cfg) (x : SNum) (k : Nat), x.InRange → k < x.digits → ∀ z, shiftConstInt c .shr x k = .ok z → z.InRange) := by
+  intro h
+  exact absurd (h ⟨.nrst, .sat⟩ ⟨10, 0, -1023⟩ 3 (by decide) (by decide) ⟨7, 0, -128⟩ (by decide)) (by decide)
+
+example : shiftConstInt ⟨.nrst, .sat⟩ .shr ⟨10, 0, -1023⟩ 3 = .ok ⟨7, 0, -128⟩ ∧ ShrBelowRange 3 ⟨10, 0, -1023⟩ ∧
+    Static.binOp ⟨.nrst, .sat⟩ .mul ⟨16, 0, -65536⟩ ⟨15, 0, -32768⟩ = .ub .signedOverflow := by decide
+
+/-- **`x << constant<k>`, `x >> constant<k>` on a static_number**, `k` of either sign: the same significand at the
+exponent moved by `k` — the denoted number is multiplied / divided by `2^k` exactly -/
+theorem shift_constant_number_exact (x : SNum) (k : Int) :
+    shiftConstNum .shl x k = .ok ⟨x.digits, x.exp + k, x.value⟩ ∧
+    shiftConstNum .shr x k = .ok ⟨x.digits, x.exp - k, x.value⟩ := ⟨rfl, rfl⟩
+
+/-- `x <<= n` / `x >>= n` are two-node histories: the shift, then the conversion back to the left operand's
+type — so `never_silently_wrong` covers compound assignment -/
+theorem shiftAssign_is_history (c : Cfg) (x : SNum) (n : Nat) :
+    shiftAssign c (shiftRT c .shl x (n : Int)) x = evalModel c (.cvt x.digits x.exp (.shl x.digits n (.lit x))) ∧
+    shiftAssign c (shiftRT c .shr x (n : Int)) x = evalModel c (.cvt x.digits x.exp (.shr n (.lit x))) ∧
+    shiftAssign c (shiftConstInt c .shl x n) x = evalModel c (.cvt x.digits x.exp (.shlI n (.lit x))) ∧
+    shiftAssign c (shiftConstInt c .shr x n) x = evalModel c (.cvt x.digits x.exp (.shrI n (.lit x))) :=
+  ⟨rfl, rfl, rfl, rfl⟩
+
+/-- repaired finding `C11.shl_to_minus_two_pow_digits_not_flagged`: **as found** (`shiftRTOrig`, negative test
+`isOverflowShlNegOrig`), `static_integer<31, nearest, saturated>{−2} << 30` returned `−2^31`, outside the declared
+`±(2^31 − 1)`, with no signal under any tag (likewise 7, 63 and 100 digits); the repaired operator saturates / signals -/
+theorem shl_as_found_refuted :
+    shiftRTOrig ⟨.nrst, .sat⟩ .shl ⟨31, 0, -2⟩ 30 = .ok ⟨31, 0, -2147483648⟩ ∧
+    ¬ (⟨31, 0, -2147483648⟩ : SNum).InRange ∧
+    shiftRTOrig ⟨.nrst, .thr⟩ .shl ⟨31, 0, -2⟩ 30 = .ok ⟨31, 0, -2147483648⟩ ∧
+    shiftRTOrig ⟨.ninf, .trp⟩ .shl ⟨7, -3, -16⟩ 3 = .ok ⟨7, -3, -128⟩ ∧
+    shiftRTOrig ⟨.tpi, .sat⟩ .shl ⟨63, 0, -1⟩ 63 = .ok ⟨63, 0, -9223372036854775807⟩ ∧
+    shiftRTOrig ⟨.nat, .sat⟩ .shl ⟨63, 0, -4611686018427387904⟩ 1 = .ok ⟨63, 0, -9223372036854775808⟩ ∧
+    shiftRTOrig ⟨.nrst, .und⟩ .shl ⟨100, 0, -1125899906842624⟩ 50 = .ok ⟨100, 0, -1267650600228229401496703205376⟩ ∧
+    shiftRT ⟨.nrst, .sat⟩ .shl ⟨31, 0, -2⟩ 30 = .ok ⟨31, 0, -2147483647⟩ ∧
+    shiftRT ⟨.nrst, .thr⟩ .shl ⟨31, 0, -2⟩ 30 = .throws false ∧
+    shiftRT ⟨.ninf, .trp⟩ .shl ⟨7, -3, -16⟩ 3 = .trap false := by decide +kernel
+
+-- non-vacuity: counts around the digit count and the storage width, both polarities, every tag
+example : shiftRT ⟨.nrst, .sat⟩ .shl ⟨31, 0, 1⟩ 30 = .ok ⟨31, 0, 1073741824⟩ ∧
+    shiftRT ⟨.nrst, .sat⟩ .shl ⟨31, 0, 1⟩ 31 = .ok ⟨31, 0, 2147483647⟩ ∧
+    shiftRT ⟨.nrst, .sat⟩ .shl ⟨31, 0, -1⟩ 31 = .ok ⟨31, 0, -2147483647⟩ ∧
+    shiftRT ⟨.nrst, .thr⟩ .shl ⟨31, 0, -1⟩ 30 = .ok ⟨31, 0, -1073741824⟩ ∧
+    shiftRT ⟨.nrst, .thr⟩ .shl ⟨31, 0, 3⟩ 30 = .throws true ∧
+    shiftRT ⟨.tpi, .trp⟩ .shl ⟨10, -4, -1023⟩ 1 = .trap false ∧
+    shiftRT ⟨.tpi, .und⟩ .shl ⟨10, -4, 512⟩ 1 = .unreachable "positive overflow" ∧
+    shiftRT ⟨.nrst, .sat⟩ .shl ⟨31, 0, 0⟩ 2147483647 = .ok ⟨31, 0, 0⟩ ∧
+    shiftRT ⟨.nrst, .sat⟩ .shl ⟨31, 0, 5⟩ 1000 = .ok ⟨31, 0, 2147483647⟩ ∧
+    shiftRT ⟨.ninf, .thr⟩ .shr ⟨31, 0, -2147483647⟩ 31 = .ok ⟨31, 0, -1⟩ ∧
+    shiftRT ⟨.ninf, .thr⟩ .shr ⟨31, 0, -2147483647⟩ 64 = .ok ⟨31, 0, -1⟩ ∧
+    shiftRT ⟨.nrst, .thr⟩ .shr ⟨40, -8, -1099511627775⟩ 3 = .ok ⟨40, -8, -137438953472⟩ ∧
+    shiftRT ⟨.nrst, .sat⟩ .shl ⟨64, 0, -9223372036854775808⟩ 1 = .ok ⟨64, 0, -18446744073709551615⟩ ∧
+    shiftConstInt ⟨.nrst, .thr⟩ .shl ⟨31, 0, -2147483647⟩ 33 = .ok ⟨64, 0, -18446744065119617024⟩ ∧
+    shiftConstInt ⟨.nrst, .thr⟩ .shr ⟨31, 0, 2147483647⟩ 30 = .ok ⟨1, 0, 1⟩ := by decide +kernel
+example : (⟨31, 0, -2⟩ : SNum).InRange ∧ (∀ m, shiftRT ⟨.nrst, .sat⟩ .shl ⟨31, 0, -2⟩ 30 ≠ .ill m) := by
+  refine ⟨by decide, fun m h => ?_⟩
+  have e : shiftRT ⟨.nrst, .sat⟩ .shl ⟨31, 0, -2⟩ 30 = .ok ⟨31, 0, -2147483647⟩ := by decide +kernel
+  rw [e] at h; cases h
+-- a history with shifts: ((x << 3) >> constant-moved exponent) narrowed; compound assignment under saturation
+example : evalModel ⟨.nrst, .sat⟩ (.cvt 10 (-4) (.shl 10 3 (.lit ⟨10, -4, -1000⟩))) = .ok ⟨10, -4, -1023⟩ ∧
+    evalIdeal ⟨.nrst, .sat⟩ (.cvt 10 (-4) (.shl 10 3 (.lit ⟨10, -4, -1000⟩))) = .val (-4) (-1023) ∧
+    SideOK ⟨.nrst, .sat⟩ (.cvt 10 (-4) (.shl 10 3 (.lit ⟨10, -4, -1000⟩))) := by decide
+example : evalModel ⟨.tpi, .thr⟩ (.add (.shlN 2 (.lit ⟨8, -3, 100⟩)) (.shr 2 (.shlI 4 (.lit ⟨6, 0, -63⟩)))) = .ok ⟨12, -1, -404⟩ ∧
+    evalIdeal ⟨.tpi, .thr⟩ (.add (.shlN 2 (.lit ⟨8, -3, 100⟩)) (.shr 2 (.shlI 4 (.lit ⟨6, 0, -63⟩)))) = .val (-1) (-404) ∧
+    SideOK ⟨.tpi, .thr⟩ (.add (.shlN 2 (.lit ⟨8, -3, 100⟩)) (.shr 2 (.shlI 4 (.lit ⟨6, 0, -63⟩)))) := by decide
+example : evalModel ⟨.nrst, .trp⟩ (.mul (.lit ⟨4, 0, 3⟩) (.shl 31 30 (.lit ⟨31, 0, -2⟩))) = .trap false ∧
+    evalIdeal ⟨.nrst, .trp⟩ (.mul (.lit ⟨4, 0, 3⟩) (.shl 31 30 (.lit ⟨31, 0, -2⟩))) = .signal false := by decide +kernel
+
 /-! ## construction from floating point: the overflow test against the declared limits
 
 `static_number<D, E>{x}` scales `x` by `2^-E` in the floating type and tests the scaled value `q` against
